@@ -112,6 +112,7 @@ def setup(ctx):
     from ..ref.masses import MassModel
     from ..statemon import Reach
     from ..atoms import key as akey
+    from ..gen.formulas import watch_private
 
     _s['model'] = MassModel()
     T = core.PeriodicTable('c19_private_%d' % ctx.shard)
@@ -119,17 +120,22 @@ def setup(ctx):
     density.init(T)
     _s['tables'] = {'public': pt.elements, 'private': T}
     reach = Reach()
-    reach.watch(formulas._hill_key, '_hill_key').watch(formulas._convert_to_hill_notation, '_convert_to_hill_notation')
+    # _hill_key and _convert_to_hill_notation are PRIVATE helpers of the pinned tree: optional reach counters and
+    # contract (requirements waived when a name is gone: renamed, inlined, replaced by a comparison class, ...)
+    watch_private(ctx, reach, formulas, '_hill_key')
+    convert = watch_private(ctx, reach, formulas, '_convert_to_hill_notation',
+                            waived=['contract._convert_to_hill_notation'])
     reach.watch(formulas.Formula.hill, 'Formula.hill').watch(formulas.Formula.__eq__, 'Formula.__eq__')
     _s['reach'] = reach
-    stats = _s['stats'] = {'evals': 0}
+    stats = _s['stats'] = {'evals': 0, 'unrecognised': 0}
 
     def hill_sequence_is_an_ordered_permutation_of_the_input(atoms, result):
-        stats['evals'] += 1
         try:
             pairs = [(c, a) for c, a in result]
         except Exception:
-            return False
+            stats['unrecognised'] += 1      # not a sequence of (count, atom) pairs in this tree: not judged here
+            return True                     # (the public Hill form built from it is judged by the checks)
+        stats['evals'] += 1
         if len(pairs) != len(atoms):
             return False
         seen = set()
@@ -139,8 +145,21 @@ def setup(ctx):
             seen.add(id(a))
         return order_problem([akey(a) for _, a in pairs]) is None
 
-    formulas._convert_to_hill_notation = icontract.ensure(
-        hill_sequence_is_an_ordered_permutation_of_the_input, error=HillContractBroken)(formulas._convert_to_hill_notation)
+    if convert is not None:
+        def judged(atoms):
+            return convert(atoms)
+        judged = icontract.ensure(hill_sequence_is_an_ordered_permutation_of_the_input, error=HillContractBroken)(judged)
+
+        def _convert_to_hill_notation(*args, **kw):
+            # pinned form: one {atom: count} mapping in, a sequence of (count, atom) pairs out; any other call is
+            # passed through un-judged
+            if len(args) == 1 and not kw and isinstance(args[0], dict):
+                return judged(args[0])
+            stats['unrecognised'] += 1
+            return convert(*args, **kw)
+        _convert_to_hill_notation.__wrapped__ = convert
+        _convert_to_hill_notation.__doc__ = getattr(convert, '__doc__', None)
+        formulas._convert_to_hill_notation = _convert_to_hill_notation
     reach.start()
     if not ctx.replay:
         for name in ('_hill_key', '_convert_to_hill_notation', 'Formula.hill', 'Formula.__eq__'):
@@ -159,6 +178,14 @@ def finish(ctx):
     _s['reach'].stop()
     _s['reach'].export(ctx)
     ctx.count('contract._convert_to_hill_notation', _s['stats']['evals'])
+    from ..gen.formulas import waive_dead
+    waive_dead(ctx, '_hill_key', [], 'reach.Formula.hill')
+    waive_dead(ctx, '_convert_to_hill_notation', ['contract._convert_to_hill_notation'], 'reach.Formula.hill')
+    if _s['stats']['unrecognised']:
+        from ..gen.formulas import waive_unjudged
+        ctx.count('contract._convert_to_hill_notation.unrecognised_call', _s['stats']['unrecognised'])
+        waive_unjudged(ctx, 'contract._convert_to_hill_notation', _s['stats']['evals'], _s['stats']['unrecognised'],
+                       'the private formulas._convert_to_hill_notation')
 
 
 # ---------------------------------------------------------------- check
